@@ -767,7 +767,10 @@ impl<'a> Parser<'a> {
         let type_parameters = self.parse_optional_type_parameters()?;
 
         let super_class = if self.match_token(&TokenKind::Extends) {
-            Some(Rc::new(self.parse_left_hand_side_expression()?))
+            let super_class = self.parse_left_hand_side_expression()?;
+            // Type arguments of the base class: extends Base<T>
+            self.parse_optional_type_arguments()?;
+            Some(Rc::new(super_class))
         } else {
             None
         };
